@@ -17,6 +17,8 @@ import (
 )
 
 type Obligation struct {
+	Second       string `json:"-"` // thorough tier: the answer of a second, different solver
+	SecondSolver string `json:"-"`
 	pruneAlt bool
 	pruned   int
 	weakSide bool
@@ -698,4 +700,50 @@ func nextGetValue(s string) (val, rest string, ok bool) {
 		v = "-" + strings.TrimSuffix(strings.TrimPrefix(v, "(- "), ")")
 	}
 	return v, s[end+1:], true
+}
+
+// confirm re-decides every discharged obligation with solvers other than the one that
+// discharged it (the query file already exists). "unsat" from a second solver confirms the
+// proof; "sat" is a disagreement; anything else leaves the obligation decided by one solver only
+// (recorded in the evidence, not an alarm).
+func confirm(obls []*Obligation, timeoutS, workers int) {
+	var wg sync.WaitGroup
+	ch := make(chan *Obligation)
+	for w := 0; w < workers; w++ {
+		wg.Add(1)
+		go func() {
+			defer wg.Done()
+			for o := range ch {
+				first := strings.SplitN(o.Solver, "/", 2)
+				file := o.File
+				if len(first) == 2 {
+					// decided on an auxiliary query: confirm that same query
+					file = strings.TrimSuffix(o.File, ".smt2") + "." + first[1] + ".smt2"
+				}
+				for _, s := range solvers {
+					if s.name == first[0] {
+						continue
+					}
+					res, dt, _ := runSolver(s, file, timeoutS)
+					o.Seconds += dt
+					if res == "unsat" || res == "sat" {
+						if res == "sat" && len(first) == 2 {
+							res = "aux-sat" // means nothing for an auxiliary query
+						}
+						o.Second, o.SecondSolver = res, s.name
+						if res == "unsat" {
+							break
+						}
+					}
+				}
+			}
+		}()
+	}
+	for _, o := range obls {
+		if o.Status == "discharged" && o.Solver != "trivial" && o.File != "" {
+			ch <- o
+		}
+	}
+	close(ch)
+	wg.Wait()
 }
